@@ -397,15 +397,10 @@ def run(cx):
     cx.guard(_normalisation, cx, fv_init, fv_make, tables)
 
     # ------------------------------------------------------------------ R15f plumbing
-    # None args dropped
-    fl = [v for _, v in assignments(execute, "filters") if v is not None]
-    ok = len(fl) == 1 and isinstance(fl[0], ast.ListComp) and call_name(fl[0].elt) == "make" and len(fl[0].generators) == 1 and \
-        [norm(i) for i in fl[0].generators[0].ifs] == [f"{norm(fl[0].generators[0].target)} is not None"] and is_name(fl[0].generators[0].iter, "args")
-    cx.ob("R15f", execute, ok, "every non-None argument becomes a condition, None is dropped, order kept" if ok else "filters list is not [make(x) for x in args if x is not None]", stmt="filters")
-    for f, who in ((execute, "_execute"), (or_init, "SqlOrCondition.__init__")):
-        ext = [c for c in walk_local(f) if isinstance(c, ast.Call) and isinstance(c.func, ast.Attribute) and c.func.attr == "extend" and is_name(c.func.value, "args")]
-        ok = len(ext) == 1 and norm(ext[0].args[0]) in ("sorted(kwargs.items())", "kwargs.items()")
-        cx.ob("R15f", ext[0] if ext else f, ok, f"{who}: keyword filters become (name, value) pairs" if ok else f"{who}: kwargs are not turned into (name, value) pairs")
+    # which values become conditions: the positional arguments followed (in some order) by the (name, value) items of kwargs;
+    # None dropped in _execute only.  Decided by following the sequence through the function for kwargs empty / non-empty.
+    for f, who, none_filter in ((execute, "_execute", True), (or_init, "SqlOrCondition.__init__", False)):
+        cx.guard(_condition_sources, cx, repo, f, who, none_filter)
     # factory: 2-tuple -> '=' ; 3-tuple unpack order
     res = _factory(cx, factory)
     # execute only in _execute
@@ -425,10 +420,20 @@ def run(cx):
     ok = len(calls) == 1 and any(isinstance(a, ast.Starred) and is_name(a.value, "args") for a in calls[0].args)
     cx.ob("R15f", f, ok, "one() delegates with its filters" if ok else "one() does not forward its filters")
     # order_by / as_scalars popped before kwargs are converted
-    pops = [c for c in walk_local(execute) if isinstance(c, ast.Call) and call_name(c) == "pop" and is_name(c.func.value, "kwargs")]
-    ext = [c for c in walk_local(execute) if isinstance(c, ast.Call) and call_name(c) == "extend" and is_name(c.func.value, "args")]
-    ok = len(pops) == 2 and ext and all(p.lineno < ext[0].lineno for p in pops)
-    cx.ob("R15f", execute, ok, "_order_by / _as_scalars are removed before kwargs become filters" if ok else "special kwargs may be turned into filters", stmt="special kwargs")
+    from sa.inline import inlined as _inl_e
+    ex_i, _ = _inl_e(repo.modules[REL], execute, nested=True)
+
+    def _top(n):
+        return next((i for i, st in enumerate(ex_i.body) if any(x is n for x in ast.walk(st))), None)
+    pops = [c for c in walk_local(ex_i) if isinstance(c, ast.Call) and call_name(c) == "pop" and is_name(c.func.value, "kwargs") and c.args and const(c.args[0], str)]
+    reads = [c for c in walk_local(ex_i) if isinstance(c, ast.Call) and call_name(c) in ("items", "keys", "values") and is_name(c.func.value, "kwargs")] + \
+            [n for n in walk_local(ex_i) if isinstance(n, ast.Starred) and is_name(n.value, "kwargs")]
+    cx.need(reads, "R15f", execute, "where kwargs become filters")
+    first_read = min(_top(r) for r in reads)
+    popped = {c.args[0].value for c in pops if _top(c) is not None and _top(c) < first_read}
+    ok = {"_order_by", "_as_scalars"} <= popped
+    cx.ob("R15f", execute, ok, "_order_by / _as_scalars are removed before kwargs become filters" if ok else
+          f"special kwargs may be turned into filters (removed before the conversion: {sorted(popped)})", stmt="special kwargs")
     if cx.repo.has("ak/mcaller_sql.py", "SqlMethodT"):
         for nm in ("list", "one", "one_or_none"):
             q = f"SqlMethodT.{nm}"
@@ -651,3 +656,128 @@ def _pairing(text, events, tables):
         if sorted(src for k, src, ifs in per_elem if k) != sorted(extends) or any(k != 1 or ifs for k, src, ifs in per_elem):
             return (False, f"style {style}: per-element placeholders over {[(k, s) for k, s, _ in per_elem]} but extend over {extends}")
     return (True, "placeholders and bound values are paired")
+
+
+def _condition_sources(cx, repo, f, who, none_filter):
+    from sa.inline import inlined
+    from sa.guards import split
+    fi, used = inlined(repo.modules[REL], f, nested=True)
+    a = fi.args
+    names_ = [x.arg for x in a.args]
+    va = a.vararg.arg if a.vararg is not None else ("args" if "args" in names_ else None)
+    kw = a.kwarg.arg if a.kwarg is not None else ("kwargs" if "kwargs" in names_ else None)
+    cx.need(va is not None and kw is not None, "R15f", f, f"{who}: args / kwargs parameters expected")
+
+    class Und(Exception):
+        pass
+    # consumer: the comprehension / loop whose element is make(<target>)
+    consumers = []
+    for n in walk_local(fi):
+        if isinstance(n, (ast.ListComp, ast.GeneratorExp)) and len(n.generators) == 1 and isinstance(n.elt, ast.Call) and call_name(n.elt) == "make" \
+                and len(n.elt.args) == 1 and norm(n.elt.args[0]) == norm(n.generators[0].target):
+            consumers.append(n)
+    cx.need(len(consumers) == 1, "R15f", f, f"{who}: one `make(x) for x in <conditions>` expected, {len(consumers)} found")
+    cons = consumers[0]
+    g = cons.generators[0]
+    filt = [norm(i) for i in g.ifs]
+    t = norm(g.target)
+    if none_filter:
+        ok = filt == [f"{t} is not None"]
+        cx.ob("R15f", cons, ok, "every non-None argument becomes a condition, None is dropped, order kept" if ok else
+              (f"arguments are filtered by {filt}: not exactly `is not None`" if filt else "None arguments are not dropped"), stmt="filters [None]")
+    else:
+        cx.ob("R15f", cons, not filt, "every operand becomes a condition" if not filt else f"operands are filtered by {filt}", stmt="operands [filter]")
+    cons_stmt = enclosing_stmt(cons)
+    results = {}
+    for kw_empty in (True, False):
+        env = {va: ["ARGS"]}
+
+        def seq(e):
+            if isinstance(e, ast.Name):
+                if e.id in env:
+                    return list(env[e.id])
+                raise Und(f"value of {e.id}")
+            tx = norm(e)
+            if tx in (f"sorted({kw}.items())", f"{kw}.items()", f"list({kw}.items())", f"list(sorted({kw}.items()))", f"tuple({kw}.items())", f"tuple(sorted({kw}.items()))"):
+                return [] if kw_empty else ["KW"]
+            if isinstance(e, ast.Call) and isinstance(e.func, ast.Name) and e.func.id in ("list", "tuple") and len(e.args) == 1:
+                return seq(e.args[0])
+            if isinstance(e, ast.Call) and isinstance(e.func, ast.Name) and e.func.id in ("list", "tuple") and not e.args:
+                return []
+            if isinstance(e, (ast.List, ast.Tuple)):
+                out = []
+                for x in e.elts:
+                    if not isinstance(x, ast.Starred):
+                        raise Und(f"element {norm(x)}")
+                    out += seq(x.value)
+                return out
+            if isinstance(e, ast.BinOp) and isinstance(e.op, ast.Add):
+                return seq(e.left) + seq(e.right)
+            if isinstance(e, ast.IfExp):
+                tv = truth(e.test)
+                return seq(e.body if tv else e.orelse)
+            if isinstance(e, ast.Call) and call_name(e) == "chain" and not e.keywords:
+                out = []
+                for x in e.args:
+                    out += seq(x)
+                return out
+            raise Und(f"sequence `{tx[:60]}`")
+
+        def truth(tst):
+            tx = norm(tst)
+            if tx == kw:
+                return not kw_empty
+            if tx == f"not {kw}":
+                return kw_empty
+            if tx in (f"len({kw}) > 0", f"len({kw}) != 0"):
+                return not kw_empty
+            raise Und(f"test `{tx[:60]}`")
+
+        def run(stmts):
+            for st in stmts:
+                if st is cons_stmt:
+                    return True
+                if isinstance(st, ast.If):
+                    touches = any((isinstance(x, ast.Name) and x.id in env and isinstance(x.ctx, ast.Store)) or
+                                  (isinstance(x, ast.Call) and isinstance(x.func, ast.Attribute) and isinstance(x.func.value, ast.Name) and x.func.value.id in env
+                                   and x.func.attr in ("extend", "append", "insert", "pop", "remove", "clear", "sort", "reverse")) for x in ast.walk(st))
+                    inside = any(x is cons_stmt for x in ast.walk(st))
+                    try:
+                        tv = truth(st.test)
+                    except Und:
+                        if not touches and not inside:
+                            continue
+                        raise
+                    if run(st.body if tv else st.orelse):
+                        return True
+                    continue
+                if isinstance(st, ast.Assign) and len(st.targets) == 1 and isinstance(st.targets[0], ast.Name):
+                    nm = st.targets[0].id
+                    try:
+                        env[nm] = seq(st.value)
+                    except Und:
+                        if nm in env:
+                            raise
+                    continue
+                if isinstance(st, ast.Expr) and isinstance(st.value, ast.Call) and isinstance(st.value.func, ast.Attribute) and isinstance(st.value.func.value, ast.Name) \
+                        and st.value.func.value.id in env:
+                    m = st.value.func.attr
+                    if m == "extend" and len(st.value.args) == 1:
+                        env[st.value.func.value.id] += seq(st.value.args[0])
+                        continue
+                    raise Und(f"`{norm(st)[:60]}`")
+                if any(isinstance(x, ast.Name) and x.id in env and isinstance(x.ctx, (ast.Store, ast.Del)) for x in ast.walk(st)):
+                    raise Und(f"`{norm(st)[:60]}`")
+            return False
+        try:
+            reached = run(fi.body)
+            cx.need(reached, "R15f", f, f"{who}: the conditions are not built on the straight path of the function")
+            results[kw_empty] = seq(g.iter)
+        except Und as e:
+            raise AnalysisError("R15f", f"{REL}::{who}", f"source of the conditions not followed ({e})")
+    ok_empty = results[True] == ["ARGS"]
+    ok_full = sorted(results[False]) == ["ARGS", "KW"]
+    cx.ob("R15f", cons, ok_empty and ok_full, f"{who}: conditions = positional arguments + (name, value) items of the keyword arguments" if ok_empty and ok_full else
+          f"{who}: conditions are built from {results[False]} (keyword arguments given) / {results[True]} (none given): " +
+          ("kwargs are not turned into (name, value) pairs" if "KW" not in results[False] else "positional arguments lost" if "ARGS" not in results[False] else "a source is used twice"),
+          stmt=f"{who}: condition sources")
